@@ -63,13 +63,16 @@ class AmplitudeChain(ModelDecay):
     cartesian = False
 
     @classmethod
-    def from_matched_line(cls, mat):
+    def from_matched_line(cls, mat, cartesian=None):
         """
         This operates on an already-matched line.
 
         :param mat: The groupdict output of a match
+        :param cartesian: Coupling convention (default: the class-wide ``cartesian`` setting)
         :return: A new amplitude chain instance
         """
+        if cartesian is None:
+            cartesian = cls.cartesian
 
         getall = "all" if hasattr(Particle, "all") else "table"  # Support 0.4.4
 
@@ -97,10 +100,12 @@ class AmplitudeChain(ModelDecay):
             cls.all_particles |= {mat["particle"]}
 
         if mat["daughters"]:
-            mat["daughters"] = [cls.from_matched_line(d) for d in mat["daughters"]]
+            mat["daughters"] = [
+                cls.from_matched_line(d, cartesian) for d in mat["daughters"]
+            ]
 
         # if main line only
-        if "amp" in mat and not cls.cartesian:
+        if "amp" in mat and not cartesian:
             A = mat["amp"].real
             dA = mat["err"].real
             theta = mat["amp"].imag
@@ -247,11 +252,17 @@ class AmplitudeChain(ModelDecay):
             print("Did not find at least one of the state particles from", *event_type)
             raise
 
+        # What is read depends on the file only, not on files read before:
+        # start from empty particle sets, and let the coherent-sum option of a file
+        # apply to that file only (the class-wide ``cartesian`` setting is the default)
+        cls.all_particles = set()
+        cls.final_particles = set()
+        cartesian = cls.cartesian
         fcs = get_from_parser(parsed, "fast_coherent_sum")
         if fcs:
             # get_from_parser already returns the children of each matching node
             ((fcs,),) = fcs
-            cls.cartesian = bool(int(fcs))
+            cartesian = bool(int(fcs))
 
         # TODO: re-enable this
         # Combine dual line Cartesian lines into traditional cartesian lines
@@ -277,7 +288,7 @@ class AmplitudeChain(ModelDecay):
         )
 
         # Convert the matches into AmplitudeChains
-        line_arr = [cls.from_matched_line(c) for c in cplx_decay_lines]
+        line_arr = [cls.from_matched_line(c, cartesian) for c in cplx_decay_lines]
 
         # Expand partial lines into complete lines
         new_line_arr = [
